@@ -112,6 +112,13 @@ FactCase(x, k) == [fam |-> "factorial", id |-> ToString(x) \o "/" \o ToString(k)
                    parts |-> << P(ToString(x), 1), P("!", k) >>, sess |-> "prelude",
                    exact |-> "na", n |-> k, val |-> ToString(Multifactorial(x, k)), lit |-> "na", rep |-> 1]
 FactCases == { FactCase(Operands[i], Orders[j]) : i \in 1..Len(Operands), j \in 1..Len(Orders) }
+\* operands beyond the largest finite factorial (170!): the value is infinite after about 171 / k factors - the computation
+\* must stop there and not count down from the operand
+HugeOperands == <<"171", "1000", "1e10", "1e18", "2^63", "1e300">>
+HugeFactCase(x, k) == [fam |-> "factorial-huge", id |-> "factorial-huge/" \o x \o "/" \o ToString(k),
+                       parts |-> << P("(", 1), P(x, 1), P(")", 1), P("!", k) >>, sess |-> "fresh",
+                       exact |-> "na", n |-> k, val |-> "", lit |-> "na", rep |-> 1]
+HugeFactCases == { HugeFactCase(HugeOperands[i], k) : i \in 1..Len(HugeOperands), k \in {1, 2, 3, 255} }
 
 MultifactorialOK ==
   /\ Multifactorial(5, 1) = 120 /\ Multifactorial(5, 2) = 15 /\ Multifactorial(10, 3) = 280
